@@ -101,6 +101,13 @@ class TlcResult:
         for h in _RE_HWM.finditer(out):
             pass
         self.hwm = int(h.group(1)) if h else None
+        # an invariant violated while replaying a trace: the counterexample's last state gives
+        # the position; the line consumed to reach it is l - 1
+        self.trace_l = None
+        if self.violated_invariant or self.violated_action_prop:
+            ls = re.findall(r"^/\\ l = (\d+)", out, re.M)
+            if ls:
+                self.trace_l = int(ls[-1])
         self.java_error = ("java.lang." in out and "Error" in out) or "Exception in thread" in out
         self.tlc_error = None
         me = re.search(r"^Error: (.*)$", out, re.M)
@@ -267,14 +274,14 @@ def validate_traces(pid, module, cfg, lines, reset_pred, nshards=None, timeout=9
             v.accepted_lines += len(sh)
             shutil.rmtree(d, ignore_errors=True)
             continue
-        if r.hwm is None or r.java_error or (r.tlc_error and "postcondition" not in r.out.lower()
-                                             and not r.violated_invariant and not r.violated_action_prop):
+        if (r.violated_invariant or r.violated_action_prop) and r.trace_l:
+            bad = r.trace_l - 1
+            why = "invariant %s violated after this line" % (r.violated_invariant or "(action property)")
+        elif r.hwm is None or r.java_error or (r.tlc_error and "postcondition" not in r.out.lower()):
             v.errors.append("trace validation shard %d: TLC failed: %s\n%s" % (i, r.summary(), r.out[-2500:]))
             continue
-        bad = r.hwm  # 1-based index of the first line that could not be consumed
-        if r.violated_invariant or r.violated_action_prop:
-            why = "invariant %s violated while replaying" % (r.violated_invariant or "(action property)")
         else:
+            bad = r.hwm  # 1-based index of the first line that could not be consumed
             why = "no spec step matches this line"
         v.accepted_lines += max(0, bad - 1)
         v.rejections.append({
@@ -384,6 +391,9 @@ class Run:
         self.assumptions = []
         self.notes = []
         self.dir = workdir(pid, None, clean=False)
+        for f in os.listdir(self.dir):
+            if f.startswith("replay-%s-" % self.tier):
+                os.unlink(os.path.join(self.dir, f))
         os.makedirs(EVIDENCE, exist_ok=True)
 
     def thorough(self):
